@@ -373,7 +373,7 @@ fn nvm_apply(a: &Nvm, base: usize, op: &Op) -> Res {
     }
 }
 
-fn nvm_family(zone_frames: usize, skew: usize, depth: usize, col: &Mutex<Collector>) -> (u64, u64) {
+fn nvm_family(zone_frames: usize, skew: usize, depth: usize, recover_prop: &'static str, col: &Mutex<Collector>) -> (u64, u64) {
     let spec = ClassingSpec::simple(1);
     let classing = spec.build();
     let region = Region::new(zone_frames + 2 * TREE_FRAMES, skew);
@@ -382,7 +382,13 @@ fn nvm_family(zone_frames: usize, skew: usize, depth: usize, col: &Mutex<Collect
     let mut evals = 0u64;
     let mut histories = 0u64;
     let fail = |clause: &str, detail: String| {
-        col.lock().unwrap().add(Violation::new("C17", clause.to_string(), detail), || {
+        // the create -> history -> recover round trip is also a clause of C05
+        let prop = if clause.starts_with("recovered persistent") || clause.starts_with("recovering an instance") {
+            recover_prop
+        } else {
+            "C17"
+        };
+        col.lock().unwrap().add(Violation::new(prop, clause.to_string(), detail), || {
             json!({"engine": "dom", "check": "C17-nvm", "zone_frames": zone_frames, "skew_trees": skew})
         });
     };
@@ -660,11 +666,17 @@ pub fn c17(tier: &str, out: Option<&Path>) -> i32 {
             }
         }
     }
+    // zone sizes at which the number of metadata pages changes (the wrapper computes the
+    // metadata size from the zone length on creation and must arrive at the same layout on
+    // recovery): every n up to the bound whose page count differs from that of n-1, +-1
+    njobs.extend(metadata_page_boundaries(thorough).into_iter().map(|n| (n, 0)));
+    let boundary_jobs = njobs.len();
     let ndepth = if thorough { 3 } else { 2 };
     let hist = AtomicU64::new(0);
     par_for(njobs.len(), |i| {
-        let (zf, skew) = njobs[i];
-        let (e, h) = nvm_family(zf, skew, ndepth, &col);
+        // (the large zones come last in the list: start with them)
+        let (zf, skew) = njobs[njobs.len() - 1 - i];
+        let (e, h) = nvm_family(zf, skew, if zf > 4 * TREE_FRAMES { 1 } else { ndepth }, "C17", &col);
         evals.fetch_add(e, Ordering::Relaxed);
         hist.fetch_add(h, Ordering::Relaxed);
         nontrivial.fetch_add(h, Ordering::Relaxed);
@@ -677,10 +689,52 @@ pub fn c17(tier: &str, out: Option<&Path>) -> i32 {
         nontrivial.load(Ordering::Relaxed),
         "zone wrapper: BFS to the stated depth over the C02 alphabet on a plain allocator; at every transition the same call shifted by the offset runs on a ZoneAlloc over byte-identical buffers: results modulo shift, bytes and statistics must be equal. Persistent wrapper: for every (zone size, base address) of the list: recover of an untouched region fails; create; exhaustion returns exactly the managed frames, none inside the metadata/header pages; recover with +-1 frame / +-1 tree and with a matching magic but another size fails; every history up to the stated depth over a fixed alphabet, then drop and recover: per-frame status, counts and freeability equal the model. distinct_nontrivial = distinct differential states + wrapper histories",
         vec![json!({"zone": {"offset": 3 * TREE_FRAMES, "frames": 2 * TREE_FRAMES}}), json!({"nvm": {"zone_frames": njobs[0].0, "base_skew_trees": njobs[0].1}})],
-        json!({"zone_jobs": zjobs.len(), "zone_depth": zdepth, "zone_states": states.load(Ordering::Relaxed),
+        json!({"nvm_jobs_total_incl_metadata_page_boundaries": boundary_jobs, "zone_jobs": zjobs.len(), "zone_depth": zdepth, "zone_states": states.load(Ordering::Relaxed),
             "nvm_jobs": njobs.len(), "nvm_history_depth": ndepth, "nvm_histories": hist.load(Ordering::Relaxed)}),
         vec!["the persistent region is anonymous mmap memory; crash points inside wrapper histories are covered by C05 on the inner allocator".into()],
         col.into_inner().unwrap(),
         out,
     )
+}
+
+/// Zone sizes (frames) at which the number of lower-metadata pages changes, +-1
+pub fn metadata_page_boundaries(thorough: bool) -> Vec<usize> {
+    let classing = ClassingSpec::simple(1).build();
+    let pages = |n: usize| LLFree::metadata_size(&classing, n).lower.div_ceil(Frame::SIZE);
+    let bound = if thorough { 600_000 } else { 140_000 };
+    let mut out = vec![];
+    let mut prev = pages(4 * TREE_FRAMES);
+    let mut n = 4 * TREE_FRAMES + 1;
+    while n <= bound {
+        let p = pages(n);
+        if p != prev {
+            out.extend([n - 1, n, n + 1]);
+        }
+        prev = p;
+        n += 1;
+    }
+    out
+}
+
+/// C05 part: persistent wrapper, create -> history -> drop -> recover, over small zones and
+/// the metadata-page-boundary zone sizes. Returns (evaluations, histories).
+pub fn c05_nvm_part(thorough: bool, col: &mut Collector) -> (u64, u64) {
+    let mut jobs: Vec<(usize, usize)> = vec![
+        (TREE_FRAMES, 0),
+        (TREE_FRAMES + HUGE_FRAMES / 2 + 3, 1),
+        (2 * TREE_FRAMES + 1, 0),
+    ];
+    jobs.extend(metadata_page_boundaries(thorough).into_iter().map(|n| (n, 0)));
+    let shared = Mutex::new(Collector::default());
+    let evals = AtomicU64::new(0);
+    let hist = AtomicU64::new(0);
+    par_for(jobs.len(), |i| {
+        let (zf, skew) = jobs[jobs.len() - 1 - i];
+        let depth = if zf > 4 * TREE_FRAMES { 1 } else if thorough { 3 } else { 2 };
+        let (e, h) = nvm_family(zf, skew, depth, "C05", &shared);
+        evals.fetch_add(e, Ordering::Relaxed);
+        hist.fetch_add(h, Ordering::Relaxed);
+    });
+    col.merge(shared.into_inner().unwrap());
+    (evals.load(Ordering::Relaxed), hist.load(Ordering::Relaxed))
 }
